@@ -76,3 +76,47 @@ func init() {
 			}
 		})
 }
+
+func init() {
+	register("C01",
+		"Decides necessary conditions of the encode-then-read round trip, writer against reader and schema generator against codec builder: everything each codec's Write emits is accepted by its own Read (WA-WR); length prefixes and item counts are those of the data written (WA-LEN, WA-CNT); on the generated-schema path every Go kind gets a codec of exactly its width (BT-WIDTH) and Read, Write and Omit of one codec agree on what the pointer is (PC-METH); pointers are always wrapped in a union because the pointer codec writes nothing for nil (BT-PTRWRAP); schema generation and codec construction take field names and the omit flag from the same helpers (SG-NAMES); the schema in the header is the one the codec was built from (ENC-SAME); the target is cleared before each record (OD-CLEAR). "+
+			"Not decided: equality of values for all types, values and configurations.",
+		func(c *Ctx) {
+			ruleWAWR(c, nil, 27)
+			ruleWALenCnt(c)
+			ruleBTWidth(c, true)
+			rulePCMeth(c)
+			ruleBTPtrWrap(c)
+			ruleSGNames(c)
+			ruleENCSame(c)
+			ruleODClear(c, findReadFile(c.P))
+		})
+
+	register("C02",
+		"Decides necessary conditions of 'valid Avro for an independent reader' against an oracle that is not the library's own reader: the block and header layout (OD-BLOCK, OD-HDR), the snappy trailer (CRC-BE), and for every codec type that what Write emits lies in the language the Avro 1.8 specification defines for the schema types the codec is built for (WA-SPEC-W); a nullable union writes exactly one selector with the right index and exactly the selected branch (WA-SEL); counts and length prefixes are those of the data (WA-CNT, WA-LEN); the omit flag reaches the codec whose Omit the union consults (BT-OMIT) and Omit is true only for nil/invalid/empty-under-omitempty (OM-SHAPE); Read/Write/Omit agree on the pointer (PC-METH); the embedded schema is the codec's own and is balanced JSON with the right keys (ENC-SAME, JS-*); pointers are wrapped in unions (BT-PTRWRAP). "+
+			"Not decided: agreement of values with an external decoder.",
+		func(c *Ctx) {
+			ruleODBlock(c)
+			ruleODHdr(c)
+			s := findReadFile(c.P)
+			ruleCRCCompress(c, s)
+			ruleWASpec(c, "W")
+			ruleWASel(c)
+			ruleWALenCnt(c)
+			ruleBTOmit(c)
+			ruleOMShape(c)
+			rulePCMeth(c)
+			ruleENCSame(c)
+			ruleJS(c)
+			ruleBTPtrWrap(c)
+		})
+
+	register("C17",
+		"Decides the few structural necessary conditions of C17 (thin by design): integer range checks use exactly MinT/MaxT of the destination width (RC-RANGE); floats are transferred as exactly sizeof(T) bytes by plain copy and a float32 carried as a double is converted on both sides of an 8-byte copy (SZ-FLOAT); varints are encoded only through the standard library's encoders, so shortest form and the ten-byte limit are the library's (VAR-STD); every integer kind gets the codec of its own width (BT-WIDTH). "+
+			"Not decided: the decoder's overflow constants and zig-zag arithmetic, NaN payloads beyond byte copy, big-endian hosts.",
+		func(c *Ctx) {
+			ruleRCRange(c)
+			ruleC17(c)
+			ruleBTWidth(c, true)
+		})
+}
